@@ -18,6 +18,8 @@ type envState struct {
 	randVar     map[int]int
 	randClaimed map[int]bool
 	secretVars  map[int]bool
+	lastMarshalled Value
+	yamlDocs    map[string]interface{} // resolved path -> Iface document (nil = malformed)
 }
 
 type timerModel struct {
@@ -28,7 +30,7 @@ type timerModel struct {
 }
 
 func newEnvState(in *Interp) *envState {
-	return &envState{in: in, extra: map[string]interface{}{}, randVar: map[int]int{}, randClaimed: map[int]bool{}, secretVars: map[int]bool{}}
+	return &envState{in: in, extra: map[string]interface{}{}, randVar: map[int]int{}, randClaimed: map[int]bool{}, secretVars: map[int]bool{}, yamlDocs: map[string]interface{}{}}
 }
 
 func (e *envState) snapshotExtra() map[string]interface{} {
@@ -64,6 +66,7 @@ func (in *Interp) zeroTime() Value {
 }
 
 func RegisterEnv(p *Program) {
+	registerWeb(p)
 	registerPersist(p)
 	registerStrconv(p)
 	registerVFS(p)
